@@ -325,6 +325,9 @@ class PurificationRBM(nn.Module):
         :rtype: torch.Tensor
         """
         v = (initial_state if overwrite else initial_state.clone()).to(self.weights_W)
+        # the conditionals are written with out=: work on dense memory (a strided
+        # start state is copied here and, if requested, written back below)
+        v = v.contiguous()
 
         h = torch.zeros(*v.shape[:-1], self.num_hidden).to(self.weights_W)
         a = torch.zeros(*v.shape[:-1], self.num_aux).to(self.weights_W)
@@ -337,6 +340,9 @@ class PurificationRBM(nn.Module):
         if overwrite and v is not initial_state and v.device == initial_state.device:
             # .to() had to copy (other dtype): write the result back as requested
             initial_state.copy_(v)
+            if initial_state.dtype == v.dtype:
+                # only the memory layout differed: the chain lives on in the caller's tensor
+                return initial_state
 
         return v
 
